@@ -310,7 +310,12 @@ def _check(ctx: Ctx) -> None:
             note_if = n
     if note_if is None:
         raise AnalysisError("tokenise: NOTE_ON branch not found")
-    nze = Normaliser()
+    def _int_transparent(e, nz):
+        # int(x) of a value that the guards have shown to equal an integer is x itself
+        if isinstance(e, ast.Call) and isinstance(e.func, ast.Name) and e.func.id == "int" and len(e.args) == 1 and not e.keywords:
+            return nz.norm(e.args[0])
+        return None
+    nze = Normaliser(atom_hook=_int_transparent)
     loop = next((a for a in ancestors(note_if) if isinstance(a, ast.For)), None)
     pre = [s for s in loop.body if isinstance(s, ast.Assign) and s.lineno < note_if.lineno]
     nze.run_block(pre + [s for s in note_if.body if isinstance(s, ast.Assign)])
